@@ -298,16 +298,7 @@ func solveStaged(obls []*Obligation, outDir string, timeout int) {
 		wg.Add(1)
 		go func(o *Obligation) {
 			defer wg.Done()
-			sliced, _ := o.vc.slicedQuery(o.Mark, o.Goal)
-			r := solve(sliced, outDir, o.Name+".slice", 3, "z3")
-			if r.Status != "unsat" {
-				script := o.vc.query(o.Mark, nil, o.Goal, false)
-				r2 := solve(script, outDir, o.Name, timeout, "")
-				if r2.Status == "unsat" || r2.Status == "sat" || r.Status != "sat" {
-					r2.Time += r.Time
-					r = r2
-				}
-			}
+			r := solveObligation(o, outDir, timeout)
 			o.Res = r
 		}(o)
 	}
